@@ -474,10 +474,39 @@ class SymReal:
 
         return uf.EXP(self)
 
-    def __float__(self):
+    def concrete(self):
+        """fix this symbolic real to the value it has in the current model of the path condition (needed when the library
+        hashes, formats or converts a float); the path stays sound but is no longer general in this symbol - noted"""
         if self.is_const():
-            return float(self.const_value())
-        raise TypeError("symx: float() of a symbolic real")
+            return self.const_value()
+        c = _ctx()
+        m = c.get_model()
+        if m is None:
+            raise PathAbort("no model to concretise a real")
+
+        def q(e):
+            x = m.eval(e, model_completion=True)
+            if z3.is_algebraic_value(x):
+                x = x.approx(20)
+            return Fraction(x.numerator_as_long(), x.denominator_as_long())
+
+        v = q(self.n) if self.d is None else q(self.n) / q(self.d)
+        c.assume_raw(self.n == _rv(v) * self.d if self.d is not None else self.n == _rv(v))
+        c.note("a symbolic real was fixed to its model value (hashed / formatted / converted by the library)")
+        self.n, self.d = _rv(v), None
+        return v
+
+    def __float__(self):
+        return float(self.concrete())
+
+    def __hash__(self):
+        return hash(float(self.concrete()))
+
+    def __format__(self, spec):
+        return format(float(self.concrete()), spec)
+
+    def __str__(self):
+        return repr(self)
 
     def __bool__(self):
         return bool(self != 0)
@@ -534,8 +563,6 @@ class SymReal:
         if isinstance(r, bool):
             return not r
         return ~r
-
-    __hash__ = None
 
     def __lt__(self, o):
         return self._cmp(o, lambda a, b: a < b)
